@@ -29,43 +29,88 @@ BINOPS = {ast.Add: "+", ast.Sub: "-", ast.Mult: "*", ast.Div: "/", ast.FloorDiv:
 UNOPS = {ast.USub: "-", ast.UAdd: "+", ast.Not: "not", ast.Invert: "~"}
 
 
+def _empty_list(v: ast.expr) -> bool:
+    return (isinstance(v, ast.List) and not v.elts) or \
+        (isinstance(v, ast.Call) and isinstance(v.func, ast.Name) and v.func.id == "list" and not v.args and not v.keywords)
+
+
+def _names(node: ast.AST, ctx=None) -> set:
+    return {n.id for n in ast.walk(node) if isinstance(n, ast.Name) and (ctx is None or isinstance(n.ctx, ctx))}
+
+
 def _fold_append_loops(body: list) -> list:
-    """``v = []`` directly followed by ``for x in it: [if c:] v.append(elt)`` is read as ``v = [elt for x in it if c]``:
-    the comprehension and its unrolled spelling have the same events and the same term."""
+    """``v = []`` ... ``for x in it: ...; v.append(elt)`` is read as the loop without the append, followed by ``v = [elt for x in it]``
+    - when the list is built by that one unconditional append (or, in a loop that does nothing else, an append under plain ifs), is not
+    touched between its creation and the loop, and ``elt`` depends only on the loop variable and on names the loop does not assign.
+    The comprehension and its unrolled spelling then have the same term; a loop that fills several lists is read as one
+    comprehension per list (loop fission)."""
+    body = [ast.copy_location(ast.Assign(targets=[st.target], value=st.value), st)
+            if isinstance(st, ast.AnnAssign) and st.value is not None and st.simple and isinstance(st.target, ast.Name) and _empty_list(st.value) else st
+            for st in body]                                              # `v: list[T] = []` binds like `v = []`
     out = []
-    i = 0
-    while i < len(body):
-        st = body[i]
-        nxt = body[i + 1] if i + 1 < len(body) else None
-        folded = None
-        if isinstance(st, ast.AnnAssign) and st.value is not None and st.simple and isinstance(st.target, ast.Name):
-            st = ast.copy_location(ast.Assign(targets=[st.target], value=st.value), st)        # `v: list[T] = []` binds like `v = []`
-        if isinstance(st, ast.Assign) and len(st.targets) == 1 and isinstance(st.targets[0], ast.Name) and isinstance(nxt, ast.For) and not nxt.orelse \
-                and isinstance(nxt.target, ast.Name) and len(nxt.body) == 1 and (
-                    (isinstance(st.value, ast.List) and not st.value.elts) or
-                    (isinstance(st.value, ast.Call) and isinstance(st.value.func, ast.Name) and st.value.func.id == "list" and not st.value.args and not st.value.keywords)):
-            v = st.targets[0].id
-            inner = nxt.body[0]
-            conds = []
-            while isinstance(inner, ast.If) and not inner.orelse and len(inner.body) == 1:
-                conds.append(inner.test)
-                inner = inner.body[0]
-            if isinstance(inner, ast.Expr) and isinstance(inner.value, ast.Call) and isinstance(inner.value.func, ast.Attribute) and inner.value.func.attr == "append" \
-                    and isinstance(inner.value.func.value, ast.Name) and inner.value.func.value.id == v and len(inner.value.args) == 1 and not inner.value.keywords:
-                elt = inner.value.args[0]
-                uses_v = any(isinstance(n, ast.Name) and n.id == v for part in [elt, nxt.iter] + conds for n in ast.walk(part))
-                if not uses_v:
-                    comp = ast.ListComp(elt=elt, generators=[ast.comprehension(target=nxt.target, iter=nxt.iter, ifs=conds, is_async=0)])
-                    folded = ast.Assign(targets=[st.targets[0]], value=comp)
-                    ast.copy_location(comp, nxt)
-                    ast.copy_location(folded, nxt)
-                    ast.fix_missing_locations(folded)
-        if folded is not None:
-            out.append(folded)
-            i += 2
+    for st in body:
+        # `a, b = [], []` binds like `a = []` and `b = []` (no value mentions a target)
+        if isinstance(st, ast.Assign) and len(st.targets) == 1 and isinstance(st.targets[0], ast.Tuple) and isinstance(st.value, ast.Tuple) \
+                and len(st.targets[0].elts) == len(st.value.elts) and all(isinstance(t, ast.Name) for t in st.targets[0].elts) \
+                and any(_empty_list(v) for v in st.value.elts) and not (_names(st.value) & _names(st.targets[0])) \
+                and not any(isinstance(v, ast.Starred) for v in st.value.elts):
+            out.extend(ast.copy_location(ast.Assign(targets=[t], value=v), st) for t, v in zip(st.targets[0].elts, st.value.elts))
         else:
-            out.append(body[i])
+            out.append(st)
+    i = 0
+    while i < len(out):
+        loop = out[i]
+        if not (isinstance(loop, ast.For) and not loop.orelse and isinstance(loop.target, (ast.Name, ast.Tuple))):
             i += 1
+            continue
+        target_names = _names(loop.target)
+        stored_in_loop = set().union(*[_names(st, ast.Store) for st in loop.body]) if loop.body else set()
+        new_loop_body = list(loop.body)
+        made = []
+        for st in list(loop.body):
+            inner, conds = st, []
+            if len(loop.body) == 1:
+                while isinstance(inner, ast.If) and not inner.orelse and len(inner.body) == 1:
+                    conds.append(inner.test)
+                    inner = inner.body[0]
+            if not (isinstance(inner, ast.Expr) and isinstance(inner.value, ast.Call) and isinstance(inner.value.func, ast.Attribute)
+                    and inner.value.func.attr == "append" and isinstance(inner.value.func.value, ast.Name) and len(inner.value.args) == 1
+                    and not inner.value.keywords and not isinstance(inner.value.args[0], ast.Starred)):
+                continue
+            v = inner.value.func.value.id
+            elt = inner.value.args[0]
+            # creation: the closest earlier `v = []` of this block, with no mention of v in between
+            k = next((j for j in range(i - 1, -1, -1) if any(v in _names(out[j]) for _ in [0])), None)
+            if k is None or not (isinstance(out[k], ast.Assign) and len(out[k].targets) == 1 and isinstance(out[k].targets[0], ast.Name)
+                                 and out[k].targets[0].id == v and _empty_list(out[k].value)):
+                continue
+            others = [x for x in loop.body if x is not st]
+            if any(v in _names(x) for x in others) or v in _names(loop.iter) or v in _names(elt) or any(v in _names(c) for c in conds):
+                continue
+            free = _names(elt) | set().union(*[_names(c) for c in conds]) if conds else _names(elt)
+            if free & (stored_in_loop - target_names):
+                continue
+            if any(isinstance(n, (ast.Yield, ast.YieldFrom, ast.Await, ast.NamedExpr)) for part in [elt] + conds for n in ast.walk(part)):
+                continue
+            comp = ast.ListComp(elt=elt, generators=[ast.comprehension(target=loop.target, iter=loop.iter, ifs=conds, is_async=0)])
+            asg = ast.Assign(targets=[ast.Name(id=v, ctx=ast.Store())], value=comp)
+            for n in (comp, asg):
+                ast.copy_location(n, loop)
+            ast.fix_missing_locations(asg)
+            made.append((k, asg))
+            new_loop_body.remove(st)
+        if not made:
+            i += 1
+            continue
+        drop = {k for k, _ in made}
+        repl = []
+        if new_loop_body:
+            nl = ast.For(target=loop.target, iter=loop.iter, body=new_loop_body, orelse=[], type_comment=None)
+            ast.copy_location(nl, loop)
+            repl.append(nl)
+        repl.extend(asg for _, asg in made)
+        out = [x for j, x in enumerate(out[:i]) if j not in drop] + repl + out[i + 1:]
+        i = i - len(drop) + len(repl)
     return out
 
 
@@ -154,6 +199,42 @@ def _fuse(c):
     return c
 
 
+def zip_view(it, uid):
+    """zip(X, [g(x) for x in X], A if c else B, ...) seen as an iteration over X itself: (X, element of X, (x, g(x), a(x) if c else b(x), ...)),
+    when every other argument is X or an unconditional single-generator comprehension over X (or a conditional choice between such).
+    None when ``it`` is not of that form."""
+    if not (isinstance(it, tuple) and len(it) == 4 and it[0] == "call" and it[1] == ("global", "zip") and not it[3] and len(it[2]) >= 2):
+        return None
+
+    def component(y, base, e2):
+        if y == base:
+            return e2
+        if len(y) == 4 and y[0] == "comp" and y[1] in ("list", "gen") and len(y[3]) == 1 and y[3][0][1] == base and not y[3][0][2]:
+            return _substitute(y[2], {y[3][0][0]: e2})
+        if len(y) == 4 and y[0] in ("ifexp", "phi"):
+            a, b = component(y[2], base, e2), component(y[3], base, e2)
+            return None if a is None or b is None else ("ifexp", y[1], a, b)
+        return None
+    for base in it[2]:
+        if not (isinstance(base, tuple) and base and base[0] not in ("ifexp", "phi")):
+            continue
+        e2 = ("elem", base, uid)
+        comps = [component(y, base, e2) for y in it[2]]
+        if all(c is not None for c in comps):
+            return base, e2, comps
+    return None
+
+
+def enumerate_view(it, uid, target):
+    """`for i, x in enumerate(xs)` seen as `for i in range(len(xs))` with x = xs[i]: (range(len(xs)), i, (i, xs[i])); None otherwise."""
+    if isinstance(it, tuple) and len(it) == 4 and it[0] == "call" and it[1] == ("global", "enumerate") and len(it[2]) == 1 and not it[3] \
+            and isinstance(target, (ast.Tuple, ast.List)) and len(target.elts) == 2 and not any(isinstance(x, ast.Starred) for x in target.elts):
+        rng = ("call", ("global", "range"), (("call", ("global", "len"), (it[2][0],), ()),), ())
+        e2 = ("elem", rng, uid)
+        return rng, e2, [e2, ("index", it[2][0], e2)]
+    return None
+
+
 def fuse_deep(t, stop=lambda x: False):
     """Rule-level normal form of selections over paired lists (terms the rule opts in for; ``stop(t)`` keeps a sub-term opaque):
 
@@ -171,17 +252,9 @@ def fuse_deep(t, stop=lambda x: False):
         elem, it, conds = t[3][0]
         if not isinstance(it, tuple):
             break
-        if len(it) == 4 and it[0] == "call" and it[1] == ("global", "zip") and not it[3] and len(it[2]) >= 2:
-            base = None
-            for cand in it[2]:
-                if all(y == cand or (len(y) == 4 and y[0] == "comp" and y[1] in ("list", "gen") and len(y[3]) == 1 and y[3][0][1] == cand and not y[3][0][2])
-                       for y in it[2]):
-                    base = cand
-                    break
-            if base is None:
-                break
-            e2 = ("elem", base, elem[2])
-            comps = [e2 if y == base else _substitute(y[2], {y[3][0][0]: e2}) for y in it[2]]
+        zv = zip_view(it, elem[2])
+        if zv is not None:
+            base, e2, comps = zv
             mapping = {("index", elem, ("const", i)): c for i, c in enumerate(comps)}
             mapping[elem] = ("tuple", tuple(comps))
             t = ("comp", t[1], _substitute(t[2], mapping), ((e2, base, tuple(_substitute(q, mapping) for q in conds)),))
@@ -195,6 +268,52 @@ def fuse_deep(t, stop=lambda x: False):
     return t
 
 
+NEGATED_CMP = {"==": "!=", "!=": "==", "in": "not in", "not in": "in", "is": "is not", "is not": "is"}
+
+
+def negate(t):
+    """``not t`` in negation normal form: the negation is pushed through and/or (de Morgan) and into ==, !=, in, is - never into an
+    ordered comparison (``not a < b`` is not ``a >= b`` for NaN), so `not (x == c or x == e)` and `x != c and x != e` are one term."""
+    if isinstance(t, tuple) and len(t) == 3 and t[0] == "bool":
+        return ("bool", "and" if t[1] == "or" else "or", tuple(negate(x) for x in t[2]))
+    if isinstance(t, tuple) and len(t) == 4 and t[0] == "cmp" and t[1] in NEGATED_CMP:
+        return ("cmp", NEGATED_CMP[t[1]], t[2], t[3])
+    if isinstance(t, tuple) and len(t) == 3 and t[0] == "un" and t[1] == "not":
+        return ("call", ("global", "bool"), (t[2],), ())          # `not not x` is bool(x)
+    return ("un", "not", t)
+
+
+MASK_CALLS = ("numpy.isclose", "numpy.isnan", "numpy.isfinite", "numpy.isinf", "numpy.isin")
+
+
+def is_mask(t) -> bool:
+    """A term that is certainly a Boolean array (or Boolean scalar): comparisons, isclose & co., and their ~ & | combinations."""
+    if not isinstance(t, tuple) or not t:
+        return False
+    if t[0] == "cmp":
+        return True
+    if t[0] == "call" and t[1][0] == "global" and t[1][1] in MASK_CALLS:
+        return True
+    if t[0] == "un" and t[1] == "~":
+        return is_mask(t[2])
+    if t[0] == "bin" and t[1] in ("&", "|", "^"):
+        return is_mask(t[2]) and is_mask(t[3])
+    return False
+
+
+def mask_not(t):
+    """~t for a Boolean mask in negation normal form (de Morgan; ~~a is a).  Comparisons keep their negation (NaN)."""
+    if t[0] == "un" and t[1] == "~":
+        return t[2]
+    if t[0] == "bin" and t[1] in ("&", "|"):
+        return ("bin", "|" if t[1] == "&" else "&", mask_not(t[2]), mask_not(t[3]))
+    return ("un", "~", t)
+
+
+def _negations(t) -> int:
+    return sum(1 for s in subterms(t) if isinstance(s, tuple) and len(s) == 3 and s[0] == "un" and s[1] in ("~", "not"))
+
+
 def polarity(t):
     """Strip leading negations of a test: ``not not not X`` -> (X, False).  Guards and phi/ifexp terms are recorded on the
     positive test, so ``if c: A else: B`` and ``if not c: B else: A`` have the same frames and the same terms."""
@@ -202,6 +321,8 @@ def polarity(t):
     while isinstance(t, tuple):
         if len(t) == 3 and t[0] == "un" and t[1] == "not":
             t, pos = t[2], not pos
+        elif len(t) == 4 and t[0] == "cmp" and t[1] in ("!=", "not in", "is not"):
+            t, pos = ("cmp", NEGATED_CMP[t[1]], t[2], t[3]), not pos          # a test on `a != b` is the negated test on `a == b`
         elif len(t) == 4 and t[0] == "call" and t[1] == ("global", "bool") and len(t[2]) == 1 and not t[3] and t[2][0][0] != "star":
             t = t[2][0]             # a test is read for its truth value: bool(x) tests like x
         elif len(t) == 4 and t[0] == "ifexp" and t[3] == ("const", False):
@@ -321,7 +442,7 @@ class FunctionTerms:
 
     # ------------------------------------------------------------------ statements
     def _block(self, body: list[ast.stmt], env: dict[str, Term], ctx: tuple) -> None:
-        body = _unfold_quantifiers(_fold_append_loops(body))
+        body = _unfold_quantifiers(_fold_append_loops(self._canonical_loops(body)))
         for s in body:
             self._stmt_(s, env, ctx)
             # implied guard: after ``if t: return`` the rest of the block runs under ``not t``
@@ -330,6 +451,73 @@ class FunctionTerms:
                 if t1 != t2:
                     lt, pos = self._last_test[id(s)]
                     ctx = ctx + (("if", lt, (not t1) == pos, s, "implied"),)
+
+    def _canonical_loops(self, body: list) -> list:
+        """for <-> while spellings of the same loop are read as one:
+
+          * ``i = a; while i < N: BODY; i += 1``  (N not assigned in BODY, i assigned only by the final increment, no ``continue``) is
+            ``for i in range(a, N): BODY`` followed, on normal termination, by ``i = max(a, N)`` (the value the counter ends with);
+          * ``for i in itertools.count(a): BODY``  (no ``continue``) is ``i = a; while True: BODY; i += 1``;
+          * ``while True: if t: break; REST``  is ``while not t: REST``."""
+        def own_level(stmts, kinds):
+            """Nodes of the given kinds that belong to this loop (not to a nested loop or function)."""
+            for st in stmts:
+                if isinstance(st, kinds):
+                    yield st
+                if isinstance(st, (ast.For, ast.While, ast.AsyncFor, ast.FunctionDef, ast.AsyncFunctionDef, ast.ClassDef)):
+                    continue
+                for fld in ("body", "orelse", "finalbody", "handlers"):
+                    sub = getattr(st, fld, None)
+                    if isinstance(sub, list):
+                        yield from own_level([x for x in sub if isinstance(x, ast.stmt)] +
+                                             [y for x in sub if isinstance(x, ast.ExceptHandler) for y in x.body], kinds)
+
+        def loc(new, old):
+            for n in ast.walk(new):
+                if not hasattr(n, "lineno"):
+                    ast.copy_location(n, old)
+            ast.fix_missing_locations(new)
+            return new
+        out = []
+        for st in body:
+            # for i in count(a)  ->  i = a; while True: ...; i += 1
+            if isinstance(st, ast.For) and not st.orelse and isinstance(st.target, ast.Name) and isinstance(st.iter, ast.Call) \
+                    and self.prog.resolve(self.module, st.iter.func) == "itertools.count" and len(st.iter.args) <= 1 and not st.iter.keywords \
+                    and st.target.id not in self.locals_shadowing_count() and not list(own_level(st.body, ast.Continue)) \
+                    and st.target.id not in {n.id for x in st.body for n in ast.walk(x) if isinstance(n, ast.Name) and isinstance(n.ctx, ast.Store)}:
+                start = st.iter.args[0] if st.iter.args else ast.Constant(value=0)
+                init = loc(ast.Assign(targets=[ast.Name(id=st.target.id, ctx=ast.Store())], value=start), st)
+                inc = loc(ast.AugAssign(target=ast.Name(id=st.target.id, ctx=ast.Store()), op=ast.Add(), value=ast.Constant(value=1)), st)
+                out.append(init)
+                st = loc(ast.While(test=ast.Constant(value=True), body=list(st.body) + [inc], orelse=[]), st)
+            # while True: if t: break; REST  ->  while not t: REST
+            if isinstance(st, ast.While) and not st.orelse and isinstance(st.test, ast.Constant) and st.test.value is True and st.body \
+                    and isinstance(st.body[0], ast.If) and not st.body[0].orelse and len(st.body[0].body) == 1 and isinstance(st.body[0].body[0], ast.Break) \
+                    and len(st.body) > 1:
+                st = loc(ast.While(test=ast.UnaryOp(op=ast.Not(), operand=st.body[0].test), body=st.body[1:], orelse=[]), st)
+            # i = a; while i < N: BODY; i += 1  ->  for i in range(i, N): BODY  else: i = max(a, N)
+            if isinstance(st, ast.While) and not st.orelse and isinstance(st.test, ast.Compare) and len(st.test.ops) == 1 \
+                    and isinstance(st.test.ops[0], (ast.Lt, ast.Gt)) and len(st.body) >= 2:
+                cnt, lim = (st.test.left, st.test.comparators[0]) if isinstance(st.test.ops[0], ast.Lt) else (st.test.comparators[0], st.test.left)
+                last = st.body[-1]
+                if isinstance(cnt, ast.Name) and isinstance(last, ast.AugAssign) and isinstance(last.op, ast.Add) and isinstance(last.target, ast.Name) \
+                        and last.target.id == cnt.id and isinstance(last.value, ast.Constant) and last.value.value == 1 and type(last.value.value) is int:
+                    rest = st.body[:-1]
+                    stored = {n.id for x in rest for n in ast.walk(x) if isinstance(n, ast.Name) and isinstance(n.ctx, (ast.Store, ast.Del))}
+                    if cnt.id not in stored and not (stored & {n.id for n in ast.walk(lim) if isinstance(n, ast.Name)}) \
+                            and not list(own_level(rest, ast.Continue)) \
+                            and not any(isinstance(n, (ast.Call, ast.Attribute, ast.Subscript)) for n in ast.walk(lim)):
+                        w0 = f"__start_of_{cnt.id}"
+                        out.append(loc(ast.Assign(targets=[ast.Name(id=w0, ctx=ast.Store())], value=ast.Name(id=cnt.id, ctx=ast.Load())), st))
+                        rng = ast.Call(func=ast.Name(id="range", ctx=ast.Load()), args=[ast.Name(id=w0, ctx=ast.Load()), lim], keywords=[])
+                        end = ast.Assign(targets=[ast.Name(id=cnt.id, ctx=ast.Store())],
+                                         value=ast.Call(func=ast.Name(id="max", ctx=ast.Load()), args=[ast.Name(id=w0, ctx=ast.Load()), lim], keywords=[]))
+                        st = loc(ast.For(target=ast.Name(id=cnt.id, ctx=ast.Store()), iter=rng, body=rest, orelse=[end], type_comment=None), st)
+            out.append(st)
+        return out
+
+    def locals_shadowing_count(self) -> set:
+        return set()
 
     def _canonical_iteration(self, f, args, kws):
         """map / filter / starmap / list(<generator>) are recorded in comprehension form, so that
@@ -442,6 +630,38 @@ class FunctionTerms:
             self._cls_stack.pop()
         return _fold_returns(frame["returns"], len(base_ctx), falls_through=not _terminates(callee.node.body))
 
+    def _local_function(self, s: ast.FunctionDef, env: dict[str, Term], ctx: tuple) -> Term:
+        """A small named inner function (`def is_unknown(x): return not game.is_value_known(x)`) is the lambda it could have been written
+        as: ('lambda', params, folded value of its returns).  Its body is evaluated once, at the definition, under a lambda frame - exactly
+        like the body of a lambda expression.  Anything else (decorated, generator, defaults, *args, unfoldable returns) stays opaque."""
+        a = s.args
+        opaque = ("localdef", s.name)
+        if s.decorator_list or a.vararg or a.kwarg or a.kwonlyargs or a.posonlyargs or a.defaults or len(self._inline_stack) >= 2:
+            return opaque
+        if any(isinstance(n, (ast.Yield, ast.YieldFrom, ast.Global, ast.Nonlocal, ast.FunctionDef, ast.AsyncFunctionDef, ast.ClassDef, ast.Await))
+               for st in s.body for n in ast.walk(st)) or sum(1 for st in s.body for n in ast.walk(st) if isinstance(n, ast.stmt)) > 25:
+            return opaque
+        uid = self.uid()
+        e2 = dict(env)
+        params = []
+        for x in a.args:
+            e2[x.arg] = ("lparam", x.arg, uid)
+            params.append(("lparam", x.arg, uid))
+        saved_locals, saved_stmt = self.locals, self._stmt
+        self.locals = self.locals | bound_names(s)
+        frame = {"qual": f"<local {s.name}>", "returns": []}
+        self._inline_stack.append(frame)
+        base_ctx = ctx + (("lambda", uid, s),)
+        try:
+            self._block(s.body, e2, base_ctx)
+        finally:
+            self._inline_stack.pop()
+            self.locals, self._stmt = saved_locals, saved_stmt
+        body = _fold_returns(frame["returns"], len(base_ctx), falls_through=not _terminates(s.body))
+        if body[0] == "unknown":
+            return opaque
+        return ("lambda", tuple(params), body)
+
     def _assigned_in(self, body: list[ast.stmt]) -> set[str]:
         out: set[str] = set()
         for s in body:
@@ -543,7 +763,8 @@ class FunctionTerms:
                         env[k] = a
                     else:
                         a, b = (a if a is not None else ("unknown", k)), (b if b is not None else ("unknown", k))
-                        env[k] = ("phi", t, a, b) if pos else ("phi", t, b, a)
+                        # a name bound in the two branches of an if-statement is the conditional expression of the two values
+                        env[k] = ("ifexp", t, a, b) if pos else ("ifexp", t, b, a)
         elif isinstance(s, (ast.For, ast.AsyncFor)):
             it = self.ev(s.iter, env, ctx)
             uid = self.uid()
@@ -553,10 +774,23 @@ class FunctionTerms:
                 if name in env:
                     env[name] = ("loopmod", name, uid)
             elem = ("elem", it, uid)
+            # `for x, y in zip(X, [g(x) for x in X])` is the loop `for x in X` with y = g(x) (lists paired with the sequence they were computed from)
+            zv = zip_view(fuse_deep(it), uid) if it[0] == "call" and it[1] == ("global", "zip") else None
+            if zv is not None and isinstance(s.target, (ast.Tuple, ast.List)) and len(s.target.elts) == len(zv[2]) \
+                    and not any(isinstance(x, ast.Starred) for x in s.target.elts):
+                it, elem, comps = zv
+            else:
+                zv = enumerate_view(it, uid, s.target)
+                if zv is not None:
+                    it, elem, comps = zv
             frame = ("for", uid, elem, it, s)
             self.emit("loop", s, ctx, uid=uid, iter=it, iter_node=s.iter, frame=frame)
             self._stmt = s
-            self._bind(s.target, elem, env, ctx + (frame,), s)
+            if zv is not None:
+                for tgt, comp_t in zip(s.target.elts, comps):
+                    self._bind(tgt, comp_t, env, ctx + (frame,), s)
+            else:
+                self._bind(s.target, elem, env, ctx + (frame,), s)
             self._block(s.body, env, ctx + (frame,))
             self.emit("loop_end", s, ctx, uid=uid)
             self._block(s.orelse, env, ctx)
@@ -572,7 +806,7 @@ class FunctionTerms:
             for name in mod:
                 if name in env:
                     env[name] = ("loopmod", name, uid)
-            t = self.ev(s.test, env, ctx)
+            t = polarity_free(self.ev(s.test, env, ctx))        # a loop test is read for its truth value
             frame = ("while", uid, t, s)
             self.emit("test", s, ctx, test=t)
             self.emit("loop", s, ctx, uid=uid, iter=None, iter_node=None, frame=frame)
@@ -631,7 +865,7 @@ class FunctionTerms:
                 base = al.name if isinstance(s, ast.Import) else f"{s.module}.{al.name}"
                 env[nm] = ("global", base)
         elif isinstance(s, (ast.FunctionDef, ast.ClassDef)):
-            env[s.name] = ("localdef", s.name)
+            env[s.name] = self._local_function(s, env, ctx) if isinstance(s, ast.FunctionDef) else ("localdef", s.name)
         elif isinstance(s, ast.Delete):
             for t in s.targets:
                 self.emit("delete", s, ctx, target=self.ev(t, env, ctx) if not isinstance(t, ast.Name) else ("name", t.id),
@@ -662,7 +896,7 @@ class FunctionTerms:
             if q is not None:
                 named, value = self.prog.named_constant(q)     # EPS = 1e-9 at module level, known to no rule: read through
                 if named:
-                    return ("const", value)
+                    return self._named_value(value, ctx)
             return ("global", q or e.id)
         if isinstance(e, ast.Attribute):
             d = _dotted(e)
@@ -675,7 +909,7 @@ class FunctionTerms:
                     if q is not None:
                         named, value = self.prog.named_constant(q)
                         if named:
-                            return ("const", value)
+                            return self._named_value(value, ctx)
                         return self._global_chain(q)
             base = self.ev(e.value, env, ctx)
             if base[0] == "global" and not (base[1].startswith("incomplete_cooperative.") and self.prog.global_value(base[1]) is not None):
@@ -718,16 +952,41 @@ class FunctionTerms:
             canon = self._canonical_iteration(f, args, kws)
             if canon is not None:
                 return _fuse(canon)
+            # operator.attrgetter("id") / operator.itemgetter(1) are the lambdas `lambda x: x.id` / `lambda x: x[1]`
+            if f in (("global", "operator.attrgetter"), ("global", "operator.itemgetter")) and len(args) == 1 and not kws and args[0][0] == "const":
+                lp = ("lparam", "x", self.uid())
+                if f[1].endswith("attrgetter") and isinstance(args[0][1], str) and args[0][1].isidentifier():
+                    return ("lambda", (lp,), ("attr", lp, args[0][1]))
+                if f[1].endswith("itemgetter"):
+                    return ("lambda", (lp,), ("index", lp, args[0]))
+            # a lambda (or a small local function) applied directly is its body
+            if f[0] == "lambda" and not kws and len(f[1]) == len(args) and not any(a[0] == "star" for a in args):
+                return _substitute(f[2], dict(zip(f[1], args)))
+            # range(0, n) and range(0, n, 1) are range(n)
+            if f == ("global", "range") and not kws and len(args) in (2, 3) and args[0] == ("const", 0) and (len(args) == 2 or args[2] == ("const", 1)):
+                return ("call", f, (args[1],), ())
             # the builtin slice(a, b, c) is recorded like the subscript form a:b:c
             if f == ("global", "slice") and 1 <= len(args) <= 3 and not kws and not any(a[0] == "star" for a in args):
                 lo, hi, step = (None, args[0], None) if len(args) == 1 else (tuple(args) + (None,))[:3]
                 return ("slice",) + tuple(None if p == ("const", None) else p for p in (lo, hi, step))
+            # np.any(~a & ~b) over Boolean masks is `not np.all(a | b)`: the spelling with fewer negations is the one recorded
+            red = None
+            if f in (("global", "numpy.any"), ("global", "numpy.all"), ("global", "any"), ("global", "all")) and len(args) == 1 and not kws:
+                red, m = f[1].rsplit(".", 1)[-1], args[0]
+            elif f[0] == "attr" and f[2] in ("any", "all") and not args and not kws and f[1][0] != "global":
+                red, m = f[2], f[1]
+            if red is not None and is_mask(m):
+                dual = mask_not(m)
+                if _negations(dual) < _negations(m):
+                    return ("un", "not", ("call", ("global", "numpy." + ("all" if red == "any" else "any")), (dual,), ()))
             # np.logical_or(a, b) / np.invert(m) / np.add(a, b) ... are recorded in operator form a | b / ~m / a + b
             if f[0] == "global" and f[1].startswith("numpy.") and f[1][6:] in NUMPY_ELEMENTWISE and not kws and not any(a[0] == "star" for a in args):
                 shape, op = NUMPY_ELEMENTWISE[f[1][6:]]
                 if shape == "bin" and len(args) == 2:
                     return ("bin", op, args[0], args[1])
                 if shape == "un" and len(args) == 1:
+                    if op == "~" and is_mask(args[0]) and args[0][0] in ("bin", "un"):
+                        return mask_not(args[0])
                     return ("un", op, args[0])
             inl = self._inline_call(f, args, kws, env, ctx) if f[0] != "ifexp" else None
             if inl is not None:
@@ -744,6 +1003,11 @@ class FunctionTerms:
                 return ("bin", "**", ("const", 2), r)          # canonical power of two: 1 << e is recorded as 2 ** e
             return ("bin", BINOPS.get(type(e.op), "?"), l, r)
         if isinstance(e, ast.UnaryOp):
+            if isinstance(e.op, ast.Not):
+                return negate(self.ev(e.operand, env, ctx))
+            if isinstance(e.op, ast.Invert):
+                o = self.ev(e.operand, env, ctx)
+                return mask_not(o) if is_mask(o) and o[0] in ("bin", "un") else ("un", "~", o)
             return ("un", UNOPS.get(type(e.op), "?"), self.ev(e.operand, env, ctx))
         if isinstance(e, ast.BoolOp):
             return ("bool", "and" if isinstance(e.op, ast.And) else "or", tuple(self.ev(v, env, ctx) for v in e.values))
@@ -784,10 +1048,17 @@ class FunctionTerms:
                 it = self.ev(g.iter, e2, c2)
                 uid = self.uid()
                 elem = ("elem", it, uid)
+                ev_ = enumerate_view(it, uid, g.target)
+                if ev_ is not None:
+                    it, elem, parts = ev_
                 frame = ("comp", uid, elem, it, e)
                 c2 = c2 + (frame,)
                 saved = self._stmt
-                self._bind_comp(g.target, elem, e2)
+                if ev_ is not None:
+                    for tgt, part in zip(g.target.elts, parts):
+                        self._bind_comp(tgt, part, e2)
+                else:
+                    self._bind_comp(g.target, elem, e2)
                 self._stmt = saved
                 conds = tuple(self.ev(c, e2, c2) for c in g.ifs)
                 gens.append((elem, it, conds))
@@ -828,6 +1099,18 @@ class FunctionTerms:
         if isinstance(e, ast.Await):
             return self.ev(e.value, env, ctx)
         return ("unknown", src(e))
+
+    def _named_value(self, value, ctx: tuple) -> Term:
+        """Value of a module-level named constant: a scalar, or (module, expr) for a closed constructor such as attrgetter("id")."""
+        if isinstance(value, tuple) and len(value) == 2 and isinstance(value[1], ast.AST):
+            mod, expr = value
+            saved = (self.module, self.locals, self.events, self._seq)
+            self.module, self.locals, self.events = mod, set(), []          # evaluated in its own module; events of the definition are not ours
+            try:
+                return self.ev(expr, {}, ctx)
+            finally:
+                self.module, self.locals, self.events, self._seq = saved
+        return ("const", value)
 
     def _global_chain(self, q: str) -> Term:
         """``pkg.mod.VAR.attr`` -> attr(global pkg.mod.VAR, attr) when VAR is a module-level variable."""
